@@ -12,7 +12,7 @@
    copy+delete (home fallback across volumes) - the check kills the real command before every
    syscall-level mutation for that.  Proofs in Proofs/PutProofs.v. *)
 From TV Require Import Prelude.Str Codec.TrashInfo Prog.Prog Cmd.Put Proofs.ProgProofs Proofs.PutSafe Proofs.PutProofs
-  Proofs.TrashInfoProofs World.World Proofs.WorldProofs Proofs.WorldPut Proofs.PathProofs.
+  Proofs.TrashInfoProofs World.World Proofs.WorldProofs Proofs.WorldPut Proofs.PathProofs Proofs.WorldExamples.
 Open Scope N_scope.
 
 Theorem put_info_before_payload : forall o,
@@ -81,3 +81,18 @@ Proof. vm_compute. reflexivity. Qed.
 Example second_create_contradicts_the_model :
   wapply_all ex_s0 [(OpenExcl ex_info, RUnit); (OpenExcl ex_info, RUnit)] = None.
 Proof. vm_compute. reflexivity. Qed.
+
+(* ---- the premises of put_payload_always_has_info are met by a real case: a tree-shaped file system with a trash directory, and a
+   complete put (probe, exclusive create, write, close, move) that is consistent with it and accepted by the discipline ---- *)
+Example world_premises_are_satisfiable :
+  wf (wfs (mkw (wof l0) None)) /\ safe_srcs e_trace [] /\ accepts put_step put_init e_trace <> None /\
+  exists s', wrun (mkw (wof l0) None) e_trace s' /\ In (Move e_src e_dst, RUnit) e_trace /\ complete s' e_info.
+Proof.
+  split; [exact a_tree|]. split; [|split].
+  - intros src dst r Hin p Hp. simpl in Hp. destruct Hp as [Hp|[]]. subst p.
+    repeat (destruct Hin as [Hin|Hin]; [try discriminate Hin|]); try contradiction.
+    inversion Hin; subst. vm_compute. reflexivity.
+  - vm_compute. discriminate.
+  - destruct a_consistent_put as [s' [Hr [He _]]]. exists s'. split; [exact Hr|]. split; [right; right; right; right; left; reflexivity|].
+    exists e_content. split; [rewrite He; vm_compute; reflexivity|vm_compute; reflexivity].
+Qed.
